@@ -207,6 +207,18 @@ func splitDots(s string) []string {
 	return append(out, cur)
 }
 
+// normaliseDoc turns the float64 numbers of a JSON round trip back into ints.
+func normaliseDoc(m map[string]any) {
+	for k, v := range m {
+		switch x := v.(type) {
+		case float64:
+			m[k] = int(x)
+		case map[string]any:
+			normaliseDoc(x)
+		}
+	}
+}
+
 func genDoc(r rng, density float64) map[string]any {
 	doc := map[string]any{}
 	for _, k := range cfgLeafInts {
@@ -269,6 +281,19 @@ func genConfig(r rng, seed uint64, id string, merge bool) *sdl.Program {
 		}
 		p.Sources = append(p.Sources, s)
 	}
+	// the same document supplied twice with another one in between (A, B, A): the later
+	// copy overrides B again
+	if merge && len(p.Sources) >= 3 && r.p(0.3) {
+		j := r.n(2, len(p.Sources)-1)
+		i := r.n(0, j-2)
+		if a, d := p.Sources[i], p.Sources[j]; a.Fault == "" && a.Kind != "args" {
+			b, _ := json.Marshal(a.Doc)
+			d.Doc = map[string]any{}
+			_ = json.Unmarshal(b, &d.Doc)
+			normaliseDoc(d.Doc)
+			d.Kind, d.OrderClass, d.Order, d.Fault = a.Kind, a.OrderClass, a.Order, ""
+		}
+	}
 	// one option call with several loaders, and option values reused by an earlier container
 	if merge && len(p.Sources) >= 2 && r.p(0.4) {
 		via := pick(r, []string{"SetConfigLoader", "SetConfigLoader", "AddConfigLoader"})
@@ -308,8 +333,37 @@ func genConfig(r rng, seed uint64, id string, merge bool) *sdl.Program {
 			}
 			t.Config = append(t.Config, cf)
 		}
+		if r.p(0.2) {
+			// a prefix-bound struct declared as a tagged anonymous field
+			t.Config = append(t.Config, &sdl.Conf{Field: "CfgAB", Menu: "prefixStruct", Keys: []string{"sim.sub"}, GoType: "struct",
+				Optional: merge || r.p(0.4), Anon: true, Embed: embedChain(r, 0.15)})
+		}
 		p.Types = append(p.Types, t)
 		p.Instances = append(p.Instances, &sdl.Instance{ID: fmt.Sprintf("c%d", ti), Type: t.Name})
+	}
+	// the configuration changes while the container runs: an initialization callback sets a
+	// key that an expression of a component created later (lazy: by a lookup after Run) reads
+	// through the very same tag text
+	if r.p(0.2) {
+		setter := p.Types[0]
+		setter.Init = true
+		cf := &sdl.Conf{Field: "CL", Menu: "sumDef", Keys: []string{"late.a", pick(r, cfgLeafInts[:3])}, Default: fmt.Sprint(r.n(0, 5)), GoType: "int", Optional: true}
+		if r.p(0.3) {
+			cf.Validate = pick(r, []string{"max=40", "gte=0"})
+		}
+		setter.Config = append(setter.Config, cf)
+		p.Instances[0].SetKey, p.Instances[0].SetVal = "late.a", r.n(10, 19)
+		lz := &sdl.Type{Name: fmt.Sprintf("%sT%d", id, nt), Lazy: true, Init: r.p(0.5), Ifaces: []int{0}}
+		dup := *cf
+		dup.Embed = embedChain(r, 0.15)
+		lz.Config = append(lz.Config, &dup)
+		if r.p(0.5) {
+			c2 := genConf(r, "C0")
+			c2.Embed = nil
+			lz.Config = append(lz.Config, c2)
+		}
+		p.Types = append(p.Types, lz)
+		p.Instances = append(p.Instances, &sdl.Instance{ID: fmt.Sprintf("c%d", nt), Type: lz.Name})
 	}
 	// user processors interleave with the built-in configuration stages
 	classes := []string{"inst", "smart", "plain"}
@@ -357,13 +411,13 @@ func genConf(r rng, field string) *sdl.Conf {
 	}
 	c.Optional = r.p(0.4)
 	if c.GoType == "int" && r.p(0.3) {
-		c.Validate = pick(r, []string{"min=3", "max=5", "required", "min=2 max=7", "gte=1", "gte=0", "max=20"})
+		c.Validate = pick(r, []string{"min=3", "max=5", "required", "min=2 max=7", "gte=1", "gte=0", "max=20", "omitempty min=3", "omitempty gte=2 max=7", "max=8 omitempty min=4"})
 	}
 	if c.GoType == "structV" && c.Validate != "struct" {
 		c.Validate = ""
 	}
 	if c.GoType == "string" && r.p(0.3) {
-		c.Validate = pick(r, []string{"eq=va", "required", "ne=vb"})
+		c.Validate = pick(r, []string{"eq=va", "required", "ne=vb", "omitempty eq=va"})
 	}
 	return c
 }
@@ -412,6 +466,14 @@ func GenerateTwins(seed uint64, idFlat, idEmb string) (*sdl.Program, *sdl.Progra
 					Args: [][]string{{"k9", "a"}}}
 			}
 			t.Config = append(t.Config, cf)
+		}
+		// recognised tags on anonymous by-value struct fields: such a field is processed like
+		// any other tagged field (it is not an untagged carrier)
+		if r.p(0.25) {
+			t.Config = append(t.Config, &sdl.Conf{Field: "CfgAB", Menu: "prefixStruct", Keys: []string{"sim.sub"}, GoType: "struct", Optional: true, Anon: true})
+		}
+		if r.p(0.25) {
+			t.Custom = append(t.Custom, &sdl.Custom{Field: "Mark", Tag: pick(r, customTags), Val: pick(r, []string{"", "m1"}), Exported: true, Anon: true})
 		}
 		// frame fields of every kind
 		kinds := []string{"untagged", "unexported", "foreign", "named", "taggedEmbed", "ptrEmbed", "lookalike"}
